@@ -544,6 +544,10 @@ def _chain(case, ctx):
     start = [[1.0, 1.0], [0.5, 0.5], [1.0, 0.0]][:L]
     x1, ys1 = _chain_data(L, rng)
     x2, ys2 = _chain_data(L, rng)
+    if int(case["sub"]) % 3 == 0:
+        # the conditioner's data lie exactly on the curve of its START parameters: its fit returns them unchanged
+        ys1[0] = start[0][0] + start[0][1] * x1
+        ctx.cls("conditioner-data", "on-the-start-curve")
     funcs = _make_chain(L, start)
     # declaration order does not exist for stand-alone functions; 'decl' permutes the creation of the fit calls' data binding instead
     TRACE.clear()
